@@ -272,6 +272,15 @@ fn gen_lt(rng: &mut Rng, tier: Tier, cases: &mut Vec<Case>) {
             cases.push(lt_case("lt-exh3", cap, &h));
         }
     }
+    // a tree with three levels (capacity 5 -> 8 leaves): the smallest tree in which an internal node
+    // can point outside its own subtree for more than one level (the D16 pattern needs slot 0 and slot 4)
+    {
+        let mut hs = Vec::new();
+        lt_exhaustive(5, len - 1, 2, &mut hs);
+        for h in hs {
+            cases.push(lt_case("lt-exh8", 5, &h));
+        }
+    }
     // slots filled in every order, then emptied; a partial fill too
     let maxcap = match tier {
         Tier::Quick => 5,
@@ -557,12 +566,12 @@ fn gen_sl(rng: &mut Rng, tier: Tier, cases: &mut Vec<Case>) {
 }
 
 fn gen_nf(rng: &mut Rng, tier: Tier, cases: &mut Vec<Case>) {
-    // every instance with items 0..=5, up to a length, capacities 0..=4 (oversized items, exact fits, zero capacity)
+    // every instance with items 0..=3, up to a length, capacities 0..=6 (oversized items, exact fits, zero capacity)
     let maxlen = match tier {
-        Tier::Quick => 4,
-        Tier::Thorough => 5,
+        Tier::Quick => 5,
+        Tier::Thorough => 6,
     };
-    for cap in 0..=4u32 {
+    for cap in 0..=6u32 {
         for len in 0..=maxlen {
             let mut xs = vec![0u32; len];
             loop {
@@ -570,7 +579,7 @@ fn gen_nf(rng: &mut Rng, tier: Tier, cases: &mut Vec<Case>) {
                 let mut p = 0;
                 while p < len {
                     xs[p] += 1;
-                    if xs[p] <= 5 {
+                    if xs[p] <= 3 {
                         break;
                     }
                     xs[p] = 0;
